@@ -35,6 +35,9 @@ import OxiddModel.Num.DriverF64Count
 import OxiddModel.Num.DriverNaturalF64
 import OxiddModel.Mtbdd.DriverTermText
 import OxiddModel.Reorder.DriverStoreN
+import OxiddModel.Mtbdd.DriverF64Exact
+import OxiddModel.Bdd.DriverRcQ
+import OxiddModel.Ffi.DriverMulti
 
 open OxiddModel
 
@@ -88,7 +91,10 @@ def protos : List (String × Proto) := [
   ("natf64", OxiddModel.Num.NatF64.Driver.proto),
   ("termtext", OxiddModel.Mtbdd.TermText.Driver.proto),
   ("reorder-store-tdd", OxiddModel.Reorder.SwapStoreN.Driver.protoTdd),
-  ("reorder-store-mtbdd", OxiddModel.Reorder.SwapStoreN.Driver.protoMtbdd)
+  ("reorder-store-mtbdd", OxiddModel.Reorder.SwapStoreN.Driver.protoMtbdd),
+  ("f64arith", OxiddModel.Mtbdd.F64Exact.Driver.proto),
+  ("bdd-rcq", OxiddModel.Bdd.DriverRcQ.proto),
+  ("capi-multi", OxiddModel.Ffi.Multi.proto)
 ]
 
 def main (args : List String) : IO UInt32 := do
